@@ -40,6 +40,9 @@ pub struct Gen {
     pub focus_left: usize,
     /// second half of a two-step move of a focus session (e.g. empty the handle, then reclaim)
     pub pending: Option<Op>,
+    /// the handle that received the last `unsplit`: it is often written to next (a join that
+    /// claims capacity it does not own shows up as a changed sibling only then)
+    pub joined: Option<usize>,
 }
 
 fn rel(r: &str, d: i64) -> Option<Arg> {
@@ -60,7 +63,7 @@ impl Gen {
         for _ in 0..4 {
             r.next();
         }
-        Gen { r, maxh, maxlen, profile: profile.to_string(), focus: None, focus_left: 0, pending: None }
+        Gen { r, maxh, maxlen, profile: profile.to_string(), focus: None, focus_left: 0, pending: None, joined: None }
     }
 
     fn bad_pct(&self) -> usize {
@@ -234,7 +237,7 @@ impl Gen {
         let room = live.len() < self.maxh;
         let h = f;
         if let Some(mut op) = self.pending.take() {
-            if op.h == f && matches!(m.hs[f], Some(H::M(_))) {
+            if matches!(m.hs.get(op.h), Some(Some(H::M(_)))) {
                 if op.op == "m_split_to" && op.a.is_none() {
                     let len = v.len;
                     op.a = if len > 1 { abs(1 + self.r.below(len - 1)) } else { abs(0) };
@@ -253,6 +256,16 @@ impl Gen {
             }
             self.focus_left += 1;
             match (stage % 4, m.hs[f].as_ref().unwrap()) {
+                (0, H::M(mm)) if room && mm.len() >= 1 && self.r.chance(12) => {
+                    // an empty handle at the very end of its buffer (for a full buffer: capacity 0 with
+                    // the whole allocation in front of it), then split it
+                    self.pending = Some(match self.r.below(3) {
+                        0 => Op { op: "m_split".into(), h, ..Default::default() },
+                        1 => Op { op: "m_split_to".into(), h, a: abs(0), ..Default::default() },
+                        _ => Op { op: "m_split_off".into(), h, a: abs(0), ..Default::default() },
+                    });
+                    return Some(Op { op: "m_advance".into(), h, a: rel("len", 0), ..Default::default() });
+                }
                 (0, H::M(mm)) if room && mm.len() >= 2 && self.r.chance(25) => {
                     // cut a middle piece out of the buffer: keep [0, at), then drop its front
                     let len = mm.len();
@@ -294,6 +307,21 @@ impl Gen {
                         continue;
                     }
                     self.focus_left -= 1; // stay in this stage until the handle is alone
+                    // sometimes join two OTHER pieces of the buffer first (pieces that are not neighbours included)
+                    let ms: Vec<usize> = sharers.iter().copied().filter(|&g| matches!(m.hs[g], Some(H::M(_)))).collect();
+                    if ms.len() >= 2 && self.r.chance(25) {
+                        let a = ms[self.r.below(ms.len())];
+                        let b = ms[self.r.below(ms.len())];
+                        if a != b {
+                            // ... and write into whatever capacity the joined handle now claims
+                            self.pending = Some(if self.r.chance(50) {
+                                Op { op: "m_fill_spare".into(), h: a, ..Default::default() }
+                            } else {
+                                Op { op: "m_extend".into(), h: a, a: rel("spare", 0), ..Default::default() }
+                            });
+                            return Some(Op { op: "m_unsplit".into(), h: a, o: b, ..Default::default() });
+                        }
+                    }
                     let o = sharers[self.r.below(sharers.len())];
                     let both_m = matches!(m.hs[f], Some(H::M(_))) && matches!(m.hs[o], Some(H::M(_)));
                     if both_m && self.r.chance(50) {
@@ -367,6 +395,23 @@ impl Gen {
     }
 
     pub fn next(&mut self, m: &Machine) -> Op {
+        let op = self.next0(m);
+        if op.op == "m_unsplit" {
+            self.joined = Some(op.h);
+        }
+        op
+    }
+
+    fn next0(&mut self, m: &Machine) -> Op {
+        if let Some(h) = self.joined.take() {
+            if self.pending.is_none() && matches!(m.hs.get(h), Some(Some(H::M(_)))) && self.r.chance(40) {
+                return if self.r.chance(50) {
+                    Op { op: "m_fill_spare".into(), h, ..Default::default() }
+                } else {
+                    Op { op: "m_extend".into(), h, a: rel("spare", 0), ..Default::default() }
+                };
+            }
+        }
         if self.profile == "adjacent" {
             return self.next_adjacent(m);
         }
